@@ -3,6 +3,7 @@ package main
 import (
 	"go/token"
 	"go/types"
+	"strings"
 
 	"golang.org/x/tools/go/ssa"
 )
@@ -117,6 +118,45 @@ func checkC13(p *Prog, r *Report) {
 			r.check(!noAbort, rule, fn.Name()+": error edge reaches an abort before return", p.pos(iff.Pos()), fnName(fn),
 				"every path from the walk/store error to return passes CloseWithError or the cancel function",
 				"after an output could not be read the upload stream is ended normally: the cache receives a well-formed archive that lacks files and stores it, so a later retrieve is a hit with missing files")
+			// when the abort is only a kill of the consuming command (a CancelFunc: the stream itself cannot carry the
+			// error), whatever that command spawned still reads the stream to its end; the archive must then not be
+			// terminated properly, and must be followed by bytes no tar reader accepts
+			killOnly := false
+			eachInstr(fn, false, func(_ *ssa.Function, j ssa.Instruction) {
+				if isAbortCall(j) && !strings.Contains(calleeName(callCommon(j)), "CloseWithError") && (j == first || existsPath(fn, first, j, nil)) {
+					killOnly = true
+				}
+			})
+			if killOnly {
+				isTarClose := func(j ssa.Instruction) bool {
+					cc := callCommon(j)
+					return cc != nil && calleeName(cc) == "(*archive/tar.Writer).Close"
+				}
+				terminated := false
+				eachInstr(fn, false, func(_ *ssa.Function, j ssa.Instruction) {
+					if !isTarClose(j) {
+						return
+					}
+					if _, isDefer := j.(*ssa.Defer); isDefer {
+						// a deferred Close runs on the error return as well (unless registered only after it, which a loop exit is not)
+						if !existsPath(fn, first, j, nil) {
+							terminated = true
+						}
+					} else if j == first || existsPath(fn, first, j, nil) {
+						terminated = true
+					}
+				})
+				poisoned := false
+				eachInstr(fn, false, func(_ *ssa.Function, j ssa.Instruction) {
+					cc := callCommon(j)
+					if cc != nil && cc.IsInvoke() && cc.Method.Name() == "Write" && resolveParam(cc.Value) == wprm && (j == first || existsPath(fn, first, j, nil)) {
+						poisoned = true
+					}
+				})
+				r.check(!terminated && poisoned, rule, fn.Name()+": an aborted archive cannot be read back as complete", p.pos(iff.Pos()), fnName(fn),
+					"on the error path the tar writer is not closed (no end-of-archive marker) and an invalidating block is written to the stream",
+					"the upload is aborted only by killing the store command, and the archive is then terminated normally (tar.Writer.Close on the error path, or nothing written after the last whole entry): a process spawned by the store command (`mkdir -p d && cat > d/$CACHE_KEY`) outlives the kill, reads a well-formed archive that lacks outputs and stores it, and a later retrieve is a hit with missing files")
+			}
 			// and must not continue with further outputs
 			continues := false
 			eachInstr(fn, false, func(_ *ssa.Function, j ssa.Instruction) {
